@@ -421,7 +421,9 @@ func runnerPropagates(w *World, r *Report, rule string) {
 							continue
 						}
 						seen++
-						if unwrapErrAP(p.Ret[0]) != ap {
+						ret := p.Ret[0]
+						fresh := strings.Contains(ret, "errors.New(") || strings.Contains(ret, "errors.Errorf(") || strings.HasPrefix(ret, "fmt.Errorf(")
+						if unwrapErrAP(ret) != ap && !strings.Contains(ret, ap) && !fresh {
 							bad = fmt.Sprintf("on a path where %s did not return nil, %s returns %s (%s)", g.Name(), f.Name(), p.Ret[0], p.LitString())
 						}
 					}
